@@ -433,3 +433,38 @@ Proof.
   unfold read_modules. rewrite filter_In. unfold good_image. rewrite andb_true_iff, negb_true_iff, Z.eqb_neq, Z.leb_le.
   split; intros (H1 & H2 & H3); repeat split; try assumption; lia.
 Qed.
+
+(* ------------------------------------------------------------------ reason strings *)
+Section ReasonStrings.
+Variable lk : Z -> Z -> bool.
+Hypothesis Hlinux : forall v, lk EN_LINUX v = true -> name_of NAMES_ExceptionCodeLinux v <> None.
+Hypothesis Hill : forall v, lk EN_SIGILL v = true -> name_of NAMES_ExceptionCodeLinuxSigillKind v <> None.
+Hypothesis Htrap : forall v, lk EN_SIGTRAP v = true -> name_of NAMES_ExceptionCodeLinuxSigtrapKind v <> None.
+Hypothesis Hfpe : forall v, lk EN_SIGFPE v = true -> name_of NAMES_ExceptionCodeLinuxSigfpeKind v <> None.
+Hypothesis Hsegv : forall v, lk EN_SIGSEGV v = true -> name_of NAMES_ExceptionCodeLinuxSigsegvKind v <> None.
+Hypothesis Hbus : forall v, lk EN_SIGBUS v = true -> name_of NAMES_ExceptionCodeLinuxSigbusKind v <> None.
+Hypothesis Hsys : forall v, lk EN_SIGSYS v = true -> name_of NAMES_ExceptionCodeLinuxSigsysKind v <> None.
+
+Lemma prefixed_some p tbl v : name_of tbl v <> None -> prefixed p tbl v <> None.
+Proof. unfold prefixed. destruct (name_of tbl v); [discriminate|congruence]. Qed.
+
+Lemma general_some code flags : name_of NAMES_ExceptionCodeLinux code <> None ->
+  reason_string (LinuxGeneral, [code; flags]) <> None.
+Proof.
+  intro H. cbn [reason_string]. destruct (name_of NAMES_ExceptionCodeLinux code) as [n|]; [|congruence].
+  destruct (name_of NAMES_ExceptionCodeLinuxSicode (signed32 flags)); [destruct (signed32 flags =? 0)|]; discriminate.
+Qed.
+
+Lemma linux_reason_string c e o : o = OsLinux \/ o = OsAndroid ->
+  reason_string (crash_reason lk o c e) <> None.
+Proof.
+  intro Ho. assert (E : crash_reason lk o c e =
+                        match linux_reason lk e with Some x => x | None => (Unknown, [e_code e; e_flags e]) end)
+    by (destruct Ho; subst o; reflexivity).
+  rewrite E. unfold linux_reason. destruct (lk EN_LINUX (e_code e)) eqn:L; cbn [negb]; [|discriminate].
+  pose proof (general_some (e_code e) (e_flags e) (Hlinux _ L)) as G. unfold refine.
+  repeat match goal with
+         | |- context [if ?b then _ else _] => let E := fresh "E" in destruct b eqn:E
+         end; try exact G; cbn [reason_string]; apply prefixed_some; auto.
+Qed.
+End ReasonStrings.
